@@ -2771,6 +2771,10 @@ class PerspConvex(Convex):
 
         return self.__mul__(other)
 
+    def sum(self, axis=None):
+
+        raise ValueError('Convex functions do not support the sum() method.')
+
     def __le__(self, other):
 
         left = self - other
